@@ -7,7 +7,7 @@ R: dlv text runs remove_comments (with and without `except`), remove_spaces and 
    through the real darklua.
 V: TLC (TextTrace + reference lexer LuaLex) judges: identical code-token stream; exactly the selected comments
    disappear; the appended text sits inside exactly one comment; `end` moves no line, `start` shifts all equally."""
-import json, os, random
+import json, os, random, re
 import vlib
 from vlib import Report, tlc, tlc_ok
 from text_common import trivia_cases, run_and_judge, text_of, lits, rejudge_without_ellipsis_trivia, ends_with_generic_pack
@@ -114,6 +114,9 @@ def judge_all(rep, cases, label):
                "lines_ok": v["lines_ok"], "lex_out": v["lex_out"], "cause": "trivia-after-type-pack-ellipsis" if cid in ellipsis else "other"}
         if o["kind"] == "append" and o["location"] == "end" and v["code_equal"] and not v["comments_ok"] and ends_with_generic_pack(text_of(o["srcb"])):
             sig["cause"] = "trivia-after-type-pack-ellipsis"      # the comment was attached to a token whose trivia is never written
+        if o["kind"] == "remove_spaces":
+            # finding F-C18-h: a line comment directly followed (after its line break) by another line comment
+            sig["line_comment_pair"] = re.search(r"--(?!\[=*\[)[^\n]*\n[ \t]*--(?!\[=*\[)", text_of(o["srcb"])) is not None
         if o["kind"] == "append":
             sig.update({"location": o["location"], "text": bytes(o["text"]).decode("latin-1"), "opens_long": o.get("opens_long", False),
                         "lone_cr": o.get("lone_cr", False), "file": o.get("file", -1), "ending": o.get("ending", 0)})
